@@ -1,0 +1,33 @@
+//go:build verif
+
+// Contracts for govc (see /verif/DESIGN.md). This file contains only
+// comments; it is compiled only under the `verif` build tag.
+
+package main
+
+//@ globalinv Exists: Exists != nil
+
+// Storage.WriteState (a bolt transaction): trusted; it touches nothing in
+// memory. Its result is logged so that callers can relate their own effect on
+// the in-memory crew to the success of the write.
+//@ func (*Storage).WriteState returns err
+//@   trusted
+//@   logged
+//@   modifies nothing
+
+// AddMachine: the machine is in memory afterwards iff it was there before or the write succeeded.
+//@ func (*Service).AddMachine returns err
+//@   safety C16
+//@   requires s != nil && s.crew.Machines != nil
+//@   ensures[C16] exists: old(id in s.crew.Machines) ==> err != nil && (id in s.crew.Machines) && s.crew.Machines[id] == old(s.crew.Machines[id])
+//@   ensures[C16] written: !old(id in s.crew.Machines) && err == nil ==> (id in s.crew.Machines) && s.crew.Machines[id] != nil && s.crew.Machines[id].State != nil
+//@   ensures[C16] rollback: !old(id in s.crew.Machines) && err != nil ==> !(id in s.crew.Machines)
+//@   ensures[C16] others: forall k string :: k != id ==> ((k in s.crew.Machines) <==> old(k in s.crew.Machines)) && s.crew.Machines[k] == old(s.crew.Machines[k])
+
+// RemMachine: the machine leaves memory only together with a successful write.
+//@ func (*Service).RemMachine returns err
+//@   safety C16
+//@   requires s != nil && s.crew.Machines != nil
+//@   ensures[C16] removed: err == nil ==> !(mid in s.crew.Machines)
+//@   ensures[C16] rollback: err != nil ==> ((mid in s.crew.Machines) <==> old(mid in s.crew.Machines)) && s.crew.Machines[mid] == old(s.crew.Machines[mid])
+//@   ensures[C16] others: forall k string :: k != mid ==> ((k in s.crew.Machines) <==> old(k in s.crew.Machines)) && s.crew.Machines[k] == old(s.crew.Machines[k])
